@@ -666,7 +666,7 @@ package corerad
 //@ func (*Advertiser).advertise
 //@   requires P1: ctx != nil && conn != nil && advOK(a) && ifiOK(a.cfg) && a.minDelayBetweenRAs > 0 && a.minDelayBetweenRAs <= secs(3600)
 //@   assigns everything
-//@   opt preserves ghost.shutdowns, heap(corerad.Advertiser), heap(corerad.Context), heap(corerad.Metrics), heap(plugin.Prefix), heap(plugin.Route), heap(plugin.RDNSS), heap(plugin.DNSSL), heap(plugin.MTU), heap(plugin.LLA), heap(plugin.CaptivePortal), heap(plugin.PREF64), heap(ndp.PREF64), heap(ndp.CaptivePortal), mem(plugin.Plugin), mem(string), mem(netip.Addr)
+//@   opt preserves ghost.shutdowns, heap(corerad.Advertiser), heap(corerad.Context), heap(corerad.Metrics), heap(plugin.Prefix), heap(plugin.Route), heap(plugin.RDNSS), heap(plugin.DNSSL), heap(plugin.MTU), heap(plugin.LLA), heap(plugin.CaptivePortal), heap(plugin.PREF64), heap(ndp.PREF64), heap(ndp.CaptivePortal), mem(plugin.Plugin), mem(string), mem(netip.Addr), heap(system.DialContext)
 //@   ensures E1: result != nil
 //@   opt trusted the errgroup body is verified member by member (schedule, multicast, Listen, linkStateWatcher); that Wait()==nil implies the shared context is done needs errgroup semantics across goroutines
 
